@@ -133,9 +133,25 @@ OPS = {
     "fail": lambda: _moments(P_FAIL, ["y"]),
     "sens": lambda: _sens(P_SENS, "y", "p"),
 }
-# goal-order permutations of one program
-for _i, _perm in enumerate([["x", "y", "x*y"], ["x", "x*y", "y"], ["y", "x", "x*y"], ["y", "x*y", "x"], ["x*y", "x", "y"], ["x*y", "y", "x"]]):
-    OPS["perm%d" % _i] = (lambda perm=_perm: _moments(P_IFS, perm))
+# goal-order permutations: every order of the goal list of each program below (one RecBuilder / solver store per analysis, as
+# GoalsAction does for a goal list); the programs are chosen for state that one goal's recurrences can leave behind for the next
+# (branch auxiliaries, functional assignments in the loop body / lagged / only in the initial block, finite-power reduction)
+P_FUNC_INIT = "x = Normal(0, 1)\ny = Exp(x)\nw = 0\nwhile true:\n    x = Normal(0, 1)\n    w = w + x*y\nend\n"
+P_FUNC_INIT2 = "g = Normal(0, 1)\ns = Cos(g)\nx = 0\ny = 0\nwhile true:\n    g = Normal(0, 1)\n    x = x + g*s\n    y = y + s\nend\n"
+PERM_PROGS = {
+    "ifs": (P_IFS, ["x", "y", "x*y"]),
+    "funcinit": (P_FUNC_INIT, ["y", "w", "w**2"]),
+    "funcinit2": (P_FUNC_INIT2, ["s", "x", "y"]),
+    "trig": (P_TRIG, ["x", "s", "x**2"]),
+    "lag": (P_TRIG_LAG, ["y", "s", "x**2"]),
+    "cat": (P_CAT, ["x", "c", "x**2"]),
+}
+import itertools as _it
+
+for _k, (_prog, _goals) in PERM_PROGS.items():
+    for _i, _perm in enumerate(_it.permutations(_goals)):
+        OPS["perm_%s_%d" % (_k, _i)] = (lambda prog=_prog, perm=list(_perm), k=_k: _moments(
+            prog, perm, {"exact_func_moments": True} if k in ("funcinit", "funcinit2", "trig", "lag") else None))
 
 
 def run(names):
